@@ -589,6 +589,9 @@ package ro
 //@   inv i == n
 //@   on next(ctx, value) when res(groups.Load, 1) : emits groups.Load(iteratee_1(ctx, value, n)), elem.NextWithContext(iteratee_0(ctx, value, n), value) ; n' = n + 1
 //@   on next(ctx, value) when !res(groups.Load, 1) : emits groups.Load(iteratee_1(ctx, value, n)), call.NewUnicastSubject(_), groups.Store(iteratee_1(ctx, value, n), res(call.NewUnicastSubject)), subject.NextWithContext(iteratee_0(ctx, value, n), value), Next(iteratee_0(ctx, value, n), res(call.NewUnicastSubject)) ; n' = n + 1
+//@   note a terminal notification of the source reaches every open group (the generic group `elem`) before it ends the outer output: ending the outer output runs the teardown, which completes whatever group is still registered
+//@   on error(ctx, err) : emits elem.ErrorWithContext(ctx, err), Error(ctx, err)
+//@   on complete(ctx) : emits elem.CompleteWithContext(ctx), Complete(ctx)
 
 //@ operator RaceWith
 //@   props C05 C14
